@@ -224,7 +224,7 @@ def r06_5(ctx):
     ternary_guard_checks(ctx)
 
 
-def ternary_guard_checks(ctx):
+def ternary_guard_checks(ctx, pending=True):
     idx = get_index(ctx.env)
     gm = get_grammar(ctx.env)
     alt = [a for a in gm.rules["conditional_expr"] if len(a.symbols) > 1]
@@ -259,7 +259,7 @@ def ternary_guard_checks(ctx):
             ok = isinstance(v, AObj) and v.cls == "Ternary" and lab(ctor(v, "cond")) == "items[0]"
             ctx.check(f"conditional_expr[then {'stmt-expr' if th else 'plain'}, else {'stmt-expr' if eh else 'plain'}] value", ok, "Ternary(cond=items[0], ...)", lab(v)[:60], fn_where(idx, fi), nontrivial=False)
     # any other value-producing operation in an arm (i++, a call): its pending effect has to be guarded by the condition too
-    for which in ("then", "else"):
+    for which in (("then", "else") if pending else ()):
         r = Runner(idx)
         box = {}
 
